@@ -1,0 +1,256 @@
+//! Verification hook (only compiled with `--cfg sylt_verif`).
+//!
+//! Drop-in replacements for `std::collections::{HashMap, HashSet}` whose hash
+//! seed is owned by a simulator instead of `RandomState`. The seed lives in a
+//! thread-local; if it was never set it is read from `SYLT_VERIF_HASH_SEED`, and
+//! if that is unset a fresh `RandomState` provides it, so a hooked binary
+//! behaves like the shipped one unless told otherwise.
+
+use std::borrow::Borrow;
+use std::cell::Cell;
+use std::collections::hash_map::RandomState;
+use std::fmt;
+use std::hash::{BuildHasher, Hash, Hasher};
+use std::iter::FromIterator;
+use std::ops::{Deref, DerefMut, Index};
+
+thread_local! {
+    static SEED: Cell<Option<u64>> = Cell::new(None);
+    static BUILDS: Cell<u64> = Cell::new(0);
+}
+
+/// Sets the hash seed used by every map created on this thread from now on.
+pub fn set_hash_seed(seed: u64) {
+    SEED.with(|s| s.set(Some(seed)));
+}
+
+/// Forgets the seed of this thread (falls back to the environment / OS entropy).
+pub fn clear_hash_seed() {
+    SEED.with(|s| s.set(None));
+}
+
+/// Number of maps and sets created on this thread (reach metric).
+pub fn maps_built() -> u64 {
+    BUILDS.with(|b| b.get())
+}
+
+fn current_seed() -> u64 {
+    SEED.with(|s| match s.get() {
+        Some(seed) => seed,
+        None => {
+            let seed = match std::env::var("SYLT_VERIF_HASH_SEED")
+                .ok()
+                .and_then(|v| v.parse::<u64>().ok())
+            {
+                Some(seed) => seed,
+                None => {
+                    let mut h = RandomState::new().build_hasher();
+                    h.write_u64(0x9e3779b97f4a7c15);
+                    h.finish()
+                }
+            };
+            s.set(Some(seed));
+            seed
+        }
+    })
+}
+
+#[derive(Clone, Copy, Debug)]
+pub struct SimState(u64);
+
+impl Default for SimState {
+    fn default() -> Self {
+        BUILDS.with(|b| b.set(b.get() + 1));
+        SimState(current_seed())
+    }
+}
+
+impl BuildHasher for SimState {
+    type Hasher = SimHasher;
+    fn build_hasher(&self) -> SimHasher {
+        SimHasher(self.0 ^ 0xcbf29ce484222325)
+    }
+}
+
+/// FNV-1a over the bytes, keyed by the seed, with a final avalanche so that the
+/// low bits (which pick the bucket) depend on the whole seed.
+pub struct SimHasher(u64);
+
+impl Hasher for SimHasher {
+    fn write(&mut self, bytes: &[u8]) {
+        for b in bytes {
+            self.0 ^= *b as u64;
+            self.0 = self.0.wrapping_mul(0x100000001b3);
+        }
+    }
+    fn finish(&self) -> u64 {
+        let mut z = self.0;
+        z = (z ^ (z >> 30)).wrapping_mul(0xbf58476d1ce4e5b9);
+        z = (z ^ (z >> 27)).wrapping_mul(0x94d049bb133111eb);
+        z ^ (z >> 31)
+    }
+}
+
+type StdMap<K, V> = std::collections::HashMap<K, V, SimState>;
+type StdSet<T> = std::collections::HashSet<T, SimState>;
+
+pub struct HashMap<K, V>(StdMap<K, V>);
+
+impl<K, V> HashMap<K, V> {
+    pub fn new() -> Self {
+        HashMap(StdMap::default())
+    }
+}
+
+impl<K, V> Default for HashMap<K, V> {
+    fn default() -> Self {
+        Self::new()
+    }
+}
+
+impl<K, V> Deref for HashMap<K, V> {
+    type Target = StdMap<K, V>;
+    fn deref(&self) -> &Self::Target {
+        &self.0
+    }
+}
+
+impl<K, V> DerefMut for HashMap<K, V> {
+    fn deref_mut(&mut self) -> &mut Self::Target {
+        &mut self.0
+    }
+}
+
+impl<K: Clone, V: Clone> Clone for HashMap<K, V> {
+    fn clone(&self) -> Self {
+        HashMap(self.0.clone())
+    }
+}
+
+impl<K: fmt::Debug, V: fmt::Debug> fmt::Debug for HashMap<K, V> {
+    fn fmt(&self, f: &mut fmt::Formatter<'_>) -> fmt::Result {
+        self.0.fmt(f)
+    }
+}
+
+impl<K: Eq + Hash, V: PartialEq> PartialEq for HashMap<K, V> {
+    fn eq(&self, other: &Self) -> bool {
+        self.0 == other.0
+    }
+}
+
+impl<K: Eq + Hash, V: Eq> Eq for HashMap<K, V> {}
+
+impl<K: Eq + Hash, V> FromIterator<(K, V)> for HashMap<K, V> {
+    fn from_iter<I: IntoIterator<Item = (K, V)>>(iter: I) -> Self {
+        let mut map = StdMap::default();
+        map.extend(iter);
+        HashMap(map)
+    }
+}
+
+impl<K, V> IntoIterator for HashMap<K, V> {
+    type Item = (K, V);
+    type IntoIter = std::collections::hash_map::IntoIter<K, V>;
+    fn into_iter(self) -> Self::IntoIter {
+        self.0.into_iter()
+    }
+}
+
+impl<'a, K, V> IntoIterator for &'a HashMap<K, V> {
+    type Item = (&'a K, &'a V);
+    type IntoIter = std::collections::hash_map::Iter<'a, K, V>;
+    fn into_iter(self) -> Self::IntoIter {
+        self.0.iter()
+    }
+}
+
+impl<'a, K, V> IntoIterator for &'a mut HashMap<K, V> {
+    type Item = (&'a K, &'a mut V);
+    type IntoIter = std::collections::hash_map::IterMut<'a, K, V>;
+    fn into_iter(self) -> Self::IntoIter {
+        self.0.iter_mut()
+    }
+}
+
+impl<K, Q: ?Sized, V> Index<&Q> for HashMap<K, V>
+where
+    K: Eq + Hash + Borrow<Q>,
+    Q: Eq + Hash,
+{
+    type Output = V;
+    fn index(&self, key: &Q) -> &V {
+        self.0.get(key).expect("no entry found for key")
+    }
+}
+
+pub struct HashSet<T>(StdSet<T>);
+
+impl<T> HashSet<T> {
+    pub fn new() -> Self {
+        HashSet(StdSet::default())
+    }
+}
+
+impl<T> Default for HashSet<T> {
+    fn default() -> Self {
+        Self::new()
+    }
+}
+
+impl<T> Deref for HashSet<T> {
+    type Target = StdSet<T>;
+    fn deref(&self) -> &Self::Target {
+        &self.0
+    }
+}
+
+impl<T> DerefMut for HashSet<T> {
+    fn deref_mut(&mut self) -> &mut Self::Target {
+        &mut self.0
+    }
+}
+
+impl<T: Clone> Clone for HashSet<T> {
+    fn clone(&self) -> Self {
+        HashSet(self.0.clone())
+    }
+}
+
+impl<T: fmt::Debug> fmt::Debug for HashSet<T> {
+    fn fmt(&self, f: &mut fmt::Formatter<'_>) -> fmt::Result {
+        self.0.fmt(f)
+    }
+}
+
+impl<T: Eq + Hash> PartialEq for HashSet<T> {
+    fn eq(&self, other: &Self) -> bool {
+        self.0 == other.0
+    }
+}
+
+impl<T: Eq + Hash> Eq for HashSet<T> {}
+
+impl<T: Eq + Hash> FromIterator<T> for HashSet<T> {
+    fn from_iter<I: IntoIterator<Item = T>>(iter: I) -> Self {
+        let mut set = StdSet::default();
+        set.extend(iter);
+        HashSet(set)
+    }
+}
+
+impl<T> IntoIterator for HashSet<T> {
+    type Item = T;
+    type IntoIter = std::collections::hash_set::IntoIter<T>;
+    fn into_iter(self) -> Self::IntoIter {
+        self.0.into_iter()
+    }
+}
+
+impl<'a, T> IntoIterator for &'a HashSet<T> {
+    type Item = &'a T;
+    type IntoIter = std::collections::hash_set::Iter<'a, T>;
+    fn into_iter(self) -> Self::IntoIter {
+        self.0.iter()
+    }
+}
